@@ -26,22 +26,24 @@ type Scenario struct {
 	Watcher   bool   // a goroutine calls ExecutingTask.Wait() concurrently (as the task store does)
 	Buf       int    // edge buffer size (0 = 1)
 	MaxExec   int    // >0: only this many schedules (scenario that documents a known deadlock)
+	Bound     int    // >0: deviation bound for this scenario in the quick tier
 }
 
 func scenarios() []Scenario {
 	var r []Scenario
 	for _, stop := range []string{"stop", "delete", "close"} {
 		r = append(r,
-			Scenario{"influxdbout", `stream|from().measurement('m')|log().prefix('IN')|influxDBOut().database('out').measurement('o')`, 3, stop, "", false, false, 0, 0},
-			Scenario{"log", `stream|from().measurement('m')|log().prefix('IN')|log().prefix('S')`, 3, stop, "", false, false, 0, 0},
-			Scenario{"window-log", `stream|from().measurement('m')|log().prefix('IN')|window().periodCount(1).everyCount(1)|log().prefix('S')`, 3, stop, "", false, false, 0, 0},
-			Scenario{Name: "slow-write", Script: `stream|from().measurement('m')|log().prefix('IN')|influxDBOut().database('out').buffer(1)`, N: 3, Stop: stop, SlowWrite: true},
+			Scenario{"influxdbout", `stream|from().measurement('m')|log().prefix('IN')|influxDBOut().database('out').measurement('o')`, 3, stop, "", false, false, 0, 0, 0},
+			Scenario{"log", `stream|from().measurement('m')|log().prefix('IN')|log().prefix('S')`, 3, stop, "", false, false, 0, 0, 0},
+			Scenario{"window-log", `stream|from().measurement('m')|log().prefix('IN')|window().periodCount(1).everyCount(1)|log().prefix('S')`, 3, stop, "", false, false, 0, 0, 0},
+			Scenario{Name: "slow-write", Script: `stream|from().measurement('m')|log().prefix('IN')|influxDBOut().database('out').buffer(2)`, N: 5, Stop: stop, SlowWrite: true, Buf: 2},
+			Scenario{Name: "watcher-slow-write", Script: `stream|from().measurement('m')|log().prefix('IN')|influxDBOut().database('out').buffer(1)`, N: 3, Stop: stop, SlowWrite: true, Watcher: true},
 			Scenario{Name: "watcher-influxdbout", Script: `stream|from().measurement('m')|log().prefix('IN')|influxDBOut().database('out').buffer(1)`, N: 3, Stop: stop, Watcher: true},
 			Scenario{Name: "loopback", Script: `stream|from().measurement('m')|log().prefix('IN')|kapacitorLoopback().database('db2').retentionPolicy('rp').measurement('loop')`, N: 3, Stop: stop,
 				Script2: `stream|from().measurement('loop')|log().prefix('S')`, Buf: 8},
 			Scenario{Name: "loopback-full-ingest-buffer", Script: `stream|from().measurement('m')|log().prefix('IN')|kapacitorLoopback().database('db2').retentionPolicy('rp').measurement('loop')`, N: 3, Stop: stop,
 				Script2: `stream|from().measurement('loop')|log().prefix('S')`, Buf: 1, MaxExec: 3},
-			Scenario{"eval-influxdbout", `stream|from().measurement('m')|log().prefix('IN')|eval(lambda: "v" + 1).as('w').keep('v', 'w')|influxDBOut().database('out').buffer(2)`, 3, stop, "", false, false, 0, 0},
+			Scenario{"eval-influxdbout", `stream|from().measurement('m')|log().prefix('IN')|eval(lambda: "v" + 1).as('w').keep('v', 'w')|influxDBOut().database('out').buffer(2)`, 3, stop, "", false, false, 0, 0, 0},
 		)
 	}
 	return r
@@ -136,7 +138,8 @@ func harness(sc Scenario) vsched.Harness {
 				}
 				if sc.SlowWrite {
 					nActors++
-					vsched.Go(func() { // releases the hanging write at a scheduler-chosen moment
+					vsched.Go(func() { // releases the hanging write once everything else is stuck behind it
+						vsched.Idle()
 						vsched.Close(release)
 						vsched.Point()
 						done <- struct{}{}
@@ -273,6 +276,12 @@ func TestCheck(t *testing.T) {
 			t.Fatal(err)
 		}
 		x := vsched.RunOne(t, harness(rp.Sc), rp.Picks)
+		if os.Getenv("VERIF_DEBUG") != "" && x.S != nil {
+			for i, c := range x.S.Trace {
+				fmt.Fprintf(os.Stderr, "%d %s %s (n=%d)\n", i, c.Kind, c.Chosen, c.N)
+			}
+			fmt.Fprintf(os.Stderr, "outcome: %s problem: %s verdict: %s\n", x.Outcome, x.Problem, x.S.Verdict)
+		}
 		if x.Problem != "" {
 			r.Violation(x.Key+":"+rp.Sc.Name+":"+rp.Sc.Stop, x.Problem, rp)
 		} else if x.Leak != "" {
@@ -317,7 +326,11 @@ func TestCheck(t *testing.T) {
 			dl = time.Now().Add(left / time.Duration(len(scs)-i))
 		}
 		_ = start
-		st := vsched.Explore(t, harness(sc), bound, shard, nshards, dl, sc.MaxExec, func(f vsched.Found) {
+		b := bound
+		if sc.Name == "slow-write" && sc.Stop == "stop" && b < 2 {
+			b = 2 // the final-flush race of the write buffer needs two deviations
+		}
+		st := vsched.Explore(t, harness(sc), b, shard, nshards, dl, sc.MaxExec, func(f vsched.Found) {
 			r.Violation(f.Key+":"+sc.Name+":"+sc.Stop, f.Problem+" | schedule "+trim(strings.Join(f.Trace, " "), 1500), Replay{Sc: sc, Picks: f.Picks})
 		})
 		r.Add("evaluations", int64(st.Executions))
